@@ -5,7 +5,7 @@ from .sessioncheck import SessionCheck
 
 class C13(SessionCheck):
     pid = "C13"
-    inst_kwargs = dict(allow_empty_jobs=True, big=True)
+    inst_kwargs = dict(allow_empty_jobs=True, big=True, huge=True)
     gen_kwargs = dict(p_invalid=0.08, p_query=0.05, p_reset=0.06, p_snapshot=1.0, p_obs=0.06, obs_kinds=(2, 3),
                       start_observers_choices=[2, 3, 2, 3, 0], p_env=0.35)
     assumptions = ["valid instance: durations >= 0",
@@ -16,6 +16,21 @@ class C13(SessionCheck):
         "SingleJobShopGraphEnv.step (coq/model/Observers.v, World.v)",
         "env.step's returned reward is read from the real environment and compared with the reward emitted by that "
         "very dispatch (harness-side; the model states it as last element of the list)"]
+
+    @staticmethod
+    def _exact(x):
+        """the number as the library produced it: ints stay ints (Python ints are exact at any size; converting
+        to float here would round values beyond 2^53 and accuse the library of the harness's own rounding)"""
+        if isinstance(x, bool):
+            return int(x)
+        if isinstance(x, int):
+            return x
+        if hasattr(x, "item"):
+            x = x.item()
+            if isinstance(x, int):
+                return x
+        x = float(x)
+        return int(x) if x.is_integer() and abs(x) < 2 ** 53 else x
 
     def run_impl(self, case):
         from . import session
@@ -28,14 +43,14 @@ class C13(SessionCheck):
             outs.append(o)
             if ev[0] == 8 and o and o[0] == 0:
                 rw = sess.env.reward_function
-                step_rewards.append([float(sess.last_step[1]), list(map(float, rw.rewards)),
+                step_rewards.append([self._exact(sess.last_step[1]), list(map(self._exact, rw.rewards)),
                                      bool(sess.last_step[2]), bool(sess.last_step[3]),
                                      bool(sess.dispatcher.schedule.is_complete())])
             elif ev[0] == 8:
                 step_rewards.append(None)
         env_rw = None
         if sess.env is not None:
-            env_rw = [type(sess.env.reward_function).__name__, list(map(float, sess.env.reward_function.rewards))]
+            env_rw = [type(sess.env.reward_function).__name__, list(map(self._exact, sess.env.reward_function.rewards))]
         return {"outs": outs, "steps": step_rewards, "env_rw": env_rw}
 
     def model_requests(self, case, obs):
